@@ -341,6 +341,29 @@ func (t *simTransport) Shutdown() error {
 	return nil
 }
 
+// plainTransport hides the node-aware half of simTransport: an application transport that implements only
+// memberlist.Transport, so that the library's own shim (addresses without node names) and the packet/stream
+// entry points of its label wrapper that only such transports reach are exercised.
+type plainTransport struct{ t *simTransport }
+
+func (p *plainTransport) FinalAdvertiseAddr(ip string, port int) (net.IP, int, error) {
+	return p.t.FinalAdvertiseAddr(ip, port)
+}
+func (p *plainTransport) WriteTo(b []byte, a string) (time.Time, error) { return p.t.WriteTo(b, a) }
+func (p *plainTransport) PacketCh() <-chan *ml.Packet                   { return p.t.PacketCh() }
+func (p *plainTransport) DialTimeout(a string, d time.Duration) (net.Conn, error) {
+	return p.t.DialTimeout(a, d)
+}
+func (p *plainTransport) StreamCh() <-chan net.Conn { return p.t.StreamCh() }
+func (p *plainTransport) Shutdown() error           { return p.t.Shutdown() }
+
+// withPlainTransport: the node's transport is not node-aware (use as the LAST option).
+func withPlainTransport(c *ml.Config) {
+	if st, ok := c.Transport.(*simTransport); ok {
+		c.Transport = &plainTransport{st}
+	}
+}
+
 // Deliver hands a packet to the node's packet listener.
 func (t *simTransport) Deliver(buf []byte, from simAddr) bool {
 	select {
@@ -571,8 +594,12 @@ func newNode(name string, ip net.IP, opts ...nodeOpt) (*node, error) {
 	}
 	if c.BindPort != 7946 {
 		// an option chose another port: rebuild the transport on it
+		_, plain := c.Transport.(*plainTransport)
 		tr = newSimTransport(ip, c.BindPort)
 		c.Transport = tr
+		if plain {
+			c.Transport = &plainTransport{tr}
+		}
 		c.AdvertisePort = c.BindPort
 		n.T, n.Addr = tr, tr.self
 	}
